@@ -154,7 +154,7 @@ class Ctx(object):
             if self.strmode == "z3":
                 return z3.StringSort()
             if self.scope is not None:
-                return self._finite_sort("Str", max(self.scope, 2) + 24)
+                return self._finite_sort("Str", max(self.scope, 2) + 64)
             return z3.DeclareSort("Str")
         if ty is EXC:
             if self.scope is not None:
@@ -591,6 +591,9 @@ def mval(m):
 
 
 def mhas(m, k):
+    if k.ty is PY and m.ty.k is STR:
+        # a dynamically typed key is in a string-keyed map only if it is a string
+        return z3.And(py_sort().is_PStr(k.t), z3.Select(CTX.sort(m.ty).dom(m.t), py_sort().s(k.t)))
     k = coerce(k, m.ty.k)
     return z3.Select(CTX.sort(m.ty).dom(m.t), k.t)
 
@@ -707,6 +710,10 @@ def to_py(v):
         return V(PY, z3.If(ois_none(v), P.PNone, to_py(oval(v)).t))
     if v.ty is REAL:
         return V(PY, P.PObj(CTX.func("float_obj", z3.RealSort(), z3.IntSort())(v.t)))
+    if isinstance(v.ty, (Ref, U, List, Map, Tup)) and (v.t is not None or v.items is not None):
+        # boxing: an object reference inside a dynamically typed slot (an uninterpreted injection)
+        w = tpack(v) if isinstance(v.ty, Tup) else v
+        return V(PY, P.PObj(CTX.func("box_" + _mangle(v.ty.key), CTX.sort(v.ty), z3.IntSort())(w.t)))
     raise OutsideSubset("cannot turn %r into a dynamic value" % (v.ty,))
 
 
